@@ -154,6 +154,18 @@ impl Code for bool {
     }
 }
 
+/// Allocate the buffer for `len` bytes, where `len` is a length prefix that has just been decoded.
+///
+/// The prefix may be garbage (e.g. compressed bytes decoded as plain ones because of a damaged entry header): that must
+/// surface as an error of the decode, not as a capacity overflow panic or an allocation failure that aborts the process.
+#[cfg(not(feature = "serde"))]
+fn alloc_decode_buffer(len: usize) -> Result<Vec<u8>> {
+    let mut v = Vec::new();
+    v.try_reserve_exact(len)
+        .map_err(|e| Error::io_error(std::io::Error::new(std::io::ErrorKind::InvalidData, e)))?;
+    Ok(v)
+}
+
 #[cfg(not(feature = "serde"))]
 impl Code for Vec<u8> {
     fn encode(&self, writer: &mut impl std::io::Write) -> Result<()> {
@@ -167,7 +179,7 @@ impl Code for Vec<u8> {
         Self: Sized,
     {
         let len = usize::decode(reader)?;
-        let mut v = Vec::with_capacity(len);
+        let mut v = alloc_decode_buffer(len)?;
         unsafe {
             v.set_len(len);
         }
@@ -193,7 +205,7 @@ impl Code for String {
         Self: Sized,
     {
         let len = usize::decode(reader)?;
-        let mut v = Vec::with_capacity(len);
+        let mut v = alloc_decode_buffer(len)?;
         unsafe { v.set_len(len) };
         reader.read_exact(&mut v).map_err(Error::io_error)?;
         String::from_utf8(v)
@@ -218,7 +230,7 @@ impl Code for bytes::Bytes {
         Self: Sized,
     {
         let len = usize::decode(reader)?;
-        let mut v = Vec::with_capacity(len);
+        let mut v = alloc_decode_buffer(len)?;
         unsafe { v.set_len(len) };
         reader.read_exact(&mut v).map_err(Error::io_error)?;
         Ok(bytes::Bytes::from(v))
